@@ -2,7 +2,7 @@
 //! helgoboss-midi, drives the shadow instances (solo, filtered twin, fresh twin, fork copies) and
 //! runs every history observer. All calls into the crate are API regions (apimon).
 
-use crate::apimon::{self, api, api_expect_panic, api_mode, Mode, Panicked, L};
+use crate::apimon::{self, api, api_expect_panic, api_mode, api_soft, Mode, Panicked, L};
 use crate::oracles::*;
 use crate::probes::Probes;
 use crate::rules::*;
@@ -34,19 +34,33 @@ impl ShortMessage for Foreign {
         U7::new(self.b[2])
     }
 }
-struct ForeignTb([u8; 3]);
+/// Three bytes, alignment 1 - the size and alignment of `RawShortMessage` - but the bytes are kept
+/// in another order and the status byte is assembled in the getter: a type that must be talked to
+/// through the trait, never through its memory.
+#[repr(C)]
+struct ForeignTb {
+    value: u8,
+    number: u8,
+    /// high nibble: channel (or system message number), low nibble: message kind
+    kind_swapped: u8,
+}
+impl ForeignTb {
+    fn new(b: [u8; 3]) -> ForeignTb {
+        ForeignTb { value: b[2], number: b[1], kind_swapped: b[0].rotate_left(4) }
+    }
+}
 impl ShortMessage for ForeignTb {
     fn status_byte(&self) -> u8 {
-        self.0[0]
+        self.kind_swapped.rotate_left(4)
     }
     fn data_byte_1(&self) -> U7 {
-        U7::new(self.0[1])
+        U7::new(self.number)
     }
     fn data_byte_2(&self) -> U7 {
-        U7::new(self.0[2])
+        U7::new(self.value)
     }
     fn to_bytes(&self) -> (u8, U7, U7) {
-        (self.0[0], U7::new(self.0[1]), U7::new(self.0[2]))
+        (self.kind_swapped.rotate_left(4), U7::new(self.number), U7::new(self.value))
     }
 }
 
@@ -147,12 +161,44 @@ macro_rules! with_repr {
                 $body
             }
             _ => {
-                let f = ForeignTb($b);
+                let f = ForeignTb::new($b);
                 let $m = &f;
                 $body
             }
         }
     };
+}
+
+#[repr(C, align(8))]
+struct Placed<const K: usize, T> {
+    pad: [u8; K],
+    v: T,
+}
+
+/// Makes the call on a copy of `*v` that lives at an address congruent to `k` modulo 8 (for types
+/// of alignment 1; a stricter alignment rounds the offset up) and copies the result back: where a
+/// `Copy` value happens to live - a field behind a few flag bytes in the host's struct - is the
+/// host's business and must not matter.
+fn at_offset<T: Copy, R>(k: u8, v: &mut T, f: impl FnOnce(&mut T) -> R) -> R {
+    macro_rules! go {
+        ($k:literal) => {{
+            let mut p = Placed::<$k, T> { pad: [0xA5; $k], v: *v };
+            let r = f(&mut p.v);
+            *v = p.v;
+            std::hint::black_box(&p.pad);
+            r
+        }};
+    }
+    match k % 8 {
+        1 => go!(1),
+        2 => go!(2),
+        3 => go!(3),
+        4 => go!(4),
+        5 => go!(5),
+        6 => go!(6),
+        7 => go!(7),
+        _ => f(v),
+    }
 }
 
 #[derive(Copy, Clone, PartialEq)]
@@ -184,10 +230,10 @@ fn feed_scn(s: &mut Scn, raw: &RawShortMessage, b: [u8; 3], repr: u8) -> Result<
 
 /// `hop`: every one of the three calls runs on another OS thread (see `apimon::api_hop`).
 fn feed_scn_on(hop: bool, s: &mut Scn, raw: &RawShortMessage, b: [u8; 3], repr: u8) -> Result<Res3, Panicked> {
-    let mode = if hop { Mode::OtherThread } else { Mode::Plain };
-    let r_cc = api_mode(mode, L::cc14_feed, || with_repr!(*raw, b, repr, |m| s.cc.feed(m)))?;
-    let r_pn = api_mode(mode, L::pn_feed, || with_repr!(*raw, b, repr, |m| s.pn.feed(m)))?;
-    let r_po = api_mode(mode, L::polling_feed, || with_repr!(*raw, b, repr, |m| s.po.feed(m)))?;
+    let _ = hop;
+    let r_cc = api_soft(L::cc14_feed, None, || with_repr!(*raw, b, repr, |m| s.cc.feed(m)))?;
+    let r_pn = api_soft(L::pn_feed, None, || with_repr!(*raw, b, repr, |m| s.pn.feed(m)))?;
+    let r_po = api_soft(L::polling_feed, [None, None], || with_repr!(*raw, b, repr, |m| s.po.feed(m)))?;
     Ok((r_cc, r_pn, r_po))
 }
 
@@ -195,23 +241,23 @@ fn feed_scn_on(hop: bool, s: &mut Scn, raw: &RawShortMessage, b: [u8; 3], repr: 
 /// other properties are owed an answer too: the call "returned nothing", which is what the
 /// caller of a caught panic is left with, and every observer judges that. The run goes on (the
 /// scanner is still a value the host holds).
-fn feed_main(hop: Mode, s: &mut Scn, raw: &RawShortMessage, b: [u8; 3], repr: u8) -> (Res3, Option<L>) {
+fn feed_main(hop: Mode, place: u8, s: &mut Scn, raw: &RawShortMessage, b: [u8; 3], repr: u8) -> (Res3, Option<L>) {
     let mut pan = None;
-    let r_cc = match api_mode(hop, L::cc14_feed, || with_repr!(*raw, b, repr, |m| s.cc.feed(m))) {
+    let r_cc = match api_mode(hop, L::cc14_feed, || at_offset(place, &mut s.cc, |x| with_repr!(*raw, b, repr, |m| x.feed(m)))) {
         Ok(r) => r,
         Err(Panicked(l)) => {
             pan = Some(l);
             None
         }
     };
-    let r_pn = match api_mode(hop, L::pn_feed, || with_repr!(*raw, b, repr, |m| s.pn.feed(m))) {
+    let r_pn = match api_mode(hop, L::pn_feed, || at_offset(place, &mut s.pn, |x| with_repr!(*raw, b, repr, |m| x.feed(m)))) {
         Ok(r) => r,
         Err(Panicked(l)) => {
             pan = Some(l);
             None
         }
     };
-    let r_po = match api_mode(hop, L::polling_feed, || with_repr!(*raw, b, repr, |m| s.po.feed(m))) {
+    let r_po = match api_mode(hop, L::polling_feed, || at_offset(place, &mut s.po, |x| with_repr!(*raw, b, repr, |m| x.feed(m)))) {
         Ok(r) => r,
         Err(Panicked(l)) => {
             pan = Some(l);
@@ -438,6 +484,9 @@ pub struct Exec<'a> {
     w_c17: bool,
     /// number of upcoming calls on the main instance that run on another OS thread
     hop: u32,
+    /// (calls left, offset): the next calls on the main instance are made on a copy that lives at
+    /// an address congruent to `offset` modulo 8
+    misplaced: (u32, u8),
     /// number of upcoming calls on the main instance made from a destructor during unwinding
     unwinding: u32,
     /// a call on the main instance panicked during the current step (allocation by the panic
@@ -467,6 +516,8 @@ impl<'a> Exec<'a> {
         crate::simclock::set_read_step(dur(trace.read_step_ns));
         let direct_before = crate::simclock::direct_reads() + apimon::foreign_direct_reads();
         crate::simenv::set_mode(trace.env_mode);
+        crate::simio::set_fail(trace.stdio_fails);
+        let stdio_before = crate::simio::writes();
         let env_reads_before = crate::simenv::reads();
         let timeout = dur(trace.timeout_ns);
         let mut sink = Sink::new();
@@ -525,6 +576,7 @@ impl<'a> Exec<'a> {
             w_c17_reset_inflight: false,
             w_c17: false,
             hop: 0,
+            misplaced: (0, 0),
             unwinding: 0,
             main_panicked: false,
         };
@@ -533,6 +585,7 @@ impl<'a> Exec<'a> {
         let mut executed = 0;
         let mut aborted = false;
         let mut allocs_seen = apimon::allocs_in_api();
+        let mut soft_seen = apimon::soft_panics();
         match e.prologue() {
             Ok(()) => {}
             Err(Panicked(l)) => {
@@ -576,6 +629,15 @@ impl<'a> Exec<'a> {
                             break 'outer;
                         }
                         let a = apimon::allocs_in_api();
+                        let sp = apimon::soft_panics();
+                        if sp != soft_seen {
+                            // a shadow instance panicked in feed/poll (answered as "nothing")
+                            soft_seen = sp;
+                            if !e.main_panicked {
+                                e.sink.check(R::C18_panic, false, || format!("panic in feed/poll of a shadow instance (solo, twin, fresh or lockstep copy) while executing event {}: {}", j, ev.to_json().compact()));
+                            }
+                            e.main_panicked = true;
+                        }
                         if e.main_panicked {
                             e.main_panicked = false;
                             allocs_seen = a;
@@ -597,6 +659,8 @@ impl<'a> Exec<'a> {
         e.p.clock_reads = clk::clock_reads().wrapping_add(apimon::foreign_clock_reads()).wrapping_sub(clock_reads_before);
         e.p.direct_clock_reads = crate::simclock::direct_reads() + apimon::foreign_direct_reads() - direct_before;
         e.p.env_reads = crate::simenv::reads() - env_reads_before;
+        e.p.stdio_writes_inside_api_regions = crate::simio::writes() - stdio_before;
+        e.p.stdio_mode_runs[trace.stdio_fails as usize] += 1;
         e.p.env_mode_runs[trace.env_mode as usize % 4] += 1;
         let calls = apimon::calls();
         for i in 0..apimon::N_LABELS {
@@ -863,6 +927,17 @@ impl<'a> Exec<'a> {
         Ok(())
     }
 
+    /// At which address offset (modulo 8) does the next call on the main instance find its scanner?
+    fn take_place(&mut self) -> u8 {
+        if self.misplaced.0 > 0 {
+            self.misplaced.0 -= 1;
+            self.p.calls_on_a_misplaced_copy += 1;
+            self.misplaced.1
+        } else {
+            0
+        }
+    }
+
     /// Does the next call on the main instance run on another OS thread?
     fn take_hop(&mut self) -> Mode {
         if self.hop > 0 {
@@ -978,6 +1053,11 @@ impl<'a> Exec<'a> {
             Ev::Snapshot => self.do_snapshot(),
             Ev::FeedAbort { b, which } => self.do_feed_abort(*b, *which),
             Ev::Bulk { n, cycle } => self.do_bulk(*n, cycle),
+            Ev::Misplaced { n, offset } => {
+                self.p.misplaced_windows += 1;
+                self.misplaced = (*n as u32, *offset % 8);
+                Ok(())
+            }
             Ev::Unwinding { n } => {
                 self.p.unwinding_windows += 1;
                 self.unwinding = *n as u32;
@@ -1134,11 +1214,12 @@ impl<'a> Exec<'a> {
         }
         let timeout = self.timeout;
         let hop = self.take_hop();
+        let place = self.take_place();
         let m = &mut self.main;
         api_mode(hop, L::scanner_reset, || {
-            m.cc.reset();
-            m.pn.reset();
-            m.po.reset();
+            at_offset(place, &mut m.cc, |x| x.reset());
+            at_offset(place, &mut m.pn, |x| x.reset());
+            at_offset(place, &mut m.po, |x| x.reset());
         })?;
         let fresh = new_scn(timeout)?;
         let m = &self.main;
@@ -1375,11 +1456,12 @@ impl<'a> Exec<'a> {
         self.p.channels_used[c as usize] += 1;
         let chn = api(L::newtype_conversions, || Channel::new(c))?;
         let hop = self.take_hop();
+        let place = self.take_place();
         let m = &mut self.main;
         let before = api(L::scanner_copy, || m.po)?;
         let t0 = self.now;
         clk::set_now(t0);
-        let r = match api_mode(hop, L::polling_poll, || m.po.poll(chn)) {
+        let r = match api_mode(hop, L::polling_poll, || at_offset(place, &mut m.po, |x| x.poll(chn))) {
             Ok(r) => r,
             Err(Panicked(l)) => {
                 // as for feeds: the caller of a caught panic got nothing; every observer judges that
@@ -1424,20 +1506,20 @@ impl<'a> Exec<'a> {
         // C15: solo instance of that channel
         self.rewind();
         let s = &mut self.solo[c as usize];
-        let rs = api(L::polling_poll, || s.po.poll(chn))?;
+        let rs = api_soft(L::polling_poll, None, || s.po.poll(chn))?;
         let eq = api(L::msg_eq, || rs == r)?;
         self.sink.check(R::C15_solo_poll, eq, || format!("poll({}): main returned {:?}, solo scanner of that channel {:?}", c, r, rs));
         // C16: filtered twin
         self.rewind();
         let t = &mut self.twin;
-        let rt = api(L::polling_poll, || t.po.poll(chn))?;
+        let rt = api_soft(L::polling_poll, None, || t.po.poll(chn))?;
         let eq = api(L::msg_eq, || rt == r)?;
         self.sink.check(R::C16_twin, eq, || format!("poll({}): main returned {:?}, twin fed only contributing messages {:?}", c, r, rt));
         // C17: fresh twin
         if let Some(f) = self.fresh.as_mut() {
             self.p.fresh_twin_steps += 1;
             clk::set_now(self.span.a);
-            let rf = api(L::polling_poll, || f.po.poll(chn))?;
+            let rf = api_soft(L::polling_poll, None, || f.po.poll(chn))?;
             let eq = api(L::msg_eq, || rf == r)?;
             self.sink.check(R::C17_fresh, eq, || format!("poll({}): reset scanner returned {:?}, scanner created with new() at the reset {:?}", c, r, rf));
             if self.w_c17_reset_inflight {
@@ -1447,7 +1529,7 @@ impl<'a> Exec<'a> {
         for i in 0..self.forks.len() {
             clk::set_now(self.span.a);
             let f = &mut self.forks[i];
-            let rf = api(L::polling_poll, || f.copy.po.poll(chn))?;
+            let rf = api_soft(L::polling_poll, None, || f.copy.po.poll(chn))?;
             let eq = api(L::msg_eq, || rf == r)?;
             self.sink.check(R::C17_copy, eq, || format!("poll({}): original returned {:?}, lockstep copy {:?}", c, r, rf));
         }
@@ -1601,7 +1683,8 @@ impl<'a> Exec<'a> {
         let t0 = self.now;
         clk::set_now(t0);
         let hop = self.take_hop();
-        let ((r_cc, r_pn, r_po), pan) = feed_main(hop, &mut self.main, &raw, b, repr);
+        let place = self.take_place();
+        let ((r_cc, r_pn, r_po), pan) = feed_main(hop, place, &mut self.main, &raw, b, repr);
         if let Some(l) = pan {
             self.main_panicked = true;
             self.sink.check(R::C18_panic, false, || format!("panic in {} while feeding {:02x?} to the main instance", apimon::LABEL_NAMES[l as usize], b));
@@ -1732,7 +1815,7 @@ impl<'a> Exec<'a> {
         let m = &self.main;
         if contrib_cc {
             let t = &mut self.twin;
-            let rt = api(L::cc14_feed, || with_repr!(raw, b, twin_repr, |m| t.cc.feed(m)))?;
+            let rt = api_soft(L::cc14_feed, None, || with_repr!(raw, b, twin_repr, |m| t.cc.feed(m)))?;
             let eq = api(L::msg_eq, || rt == r_cc)?;
             self.sink.check(R::C16_twin, eq, || format!("fed {:02x?}: cc14 main returned {:?}, twin fed only contributing messages {:?}", b, r_cc, rt));
         } else {
@@ -1743,8 +1826,8 @@ impl<'a> Exec<'a> {
         if contrib_pn {
             self.rewind();
             let t = &mut self.twin;
-            let rt1 = api(L::pn_feed, || with_repr!(raw, b, twin_repr, |m| t.pn.feed(m)))?;
-            let rt2 = api(L::polling_feed, || with_repr!(raw, b, twin_repr, |m| t.po.feed(m)))?;
+            let rt1 = api_soft(L::pn_feed, None, || with_repr!(raw, b, twin_repr, |m| t.pn.feed(m)))?;
+            let rt2 = api_soft(L::polling_feed, [None, None], || with_repr!(raw, b, twin_repr, |m| t.po.feed(m)))?;
             let (e1, e2) = api(L::msg_eq, || (rt1 == r_pn, rt2 == r_po))?;
             self.sink.check(R::C16_twin, e1, || format!("fed {:02x?}: (N)RPN main returned {:?}, twin fed only contributing messages {:?}", b, r_pn, rt1));
             self.sink.check(R::C16_twin, e2, || format!("fed {:02x?}: polling main returned {:?}, twin fed only contributing messages {:?}", b, r_po, rt2));
